@@ -158,14 +158,26 @@ def run_scenario(name: str, choose, record: Dict[str, Any]):
     for p in SCENARIOS[name]:
         if p[0] in ("pub", "pre") and p[1] not in all_channels:
             all_channels.append(p[1])
-    drained_by: Dict[str, List[Any]] = {ch: [m.data for m in tr.subscribe(ch)] for ch in all_channels}
+    # first a fresh subscription per subscriber pattern (a message queued on a matching channel must reach a subscription
+    # on that pattern opened after it was published), then the exact channel names, then "*"
+    sub_patterns = list(dict.fromkeys(p[1] for p in prog if p[0] in ("sub", "cbrun")))
+    redrained: Dict[str, List[Any]] = {pat: [m.data for m in tr.subscribe(pat)] for pat in sub_patterns}
+    exact: Dict[str, List[Any]] = {ch: [m.data for m in tr.subscribe(ch)] for ch in all_channels}
+    for pat in sub_patterns:
+        for d in redrained[pat]:
+            if not fnmatch(d[1], pat):
+                return Fail("C14:%s:pattern-mismatch" % name, "a fresh subscription %r received a message of channel %r" % (pat, d[1]))
+        for ch in all_channels:
+            if fnmatch(ch, pat) and exact[ch]:
+                return Fail("C14:%s:stranded" % name, "after all threads finished a fresh subscribe(%r) left %r queued on matching channel %r (only subscribe(%r) found them); schedule %r" % (pat, exact[ch], ch, ch, sched))
+    drained_by: Dict[str, List[Any]] = {ch: [d for pat in sub_patterns for d in redrained[pat] if d[1] == ch] + exact[ch] for ch in all_channels}
     drained_by["*"] = [m.data for m in tr.subscribe("*")]
     drained = [d for ch in list(all_channels) + ["*"] for d in drained_by[ch]]
     record["delivered"] = {i: list(v) for i, v in delivered.items()}
     record["drained"] = list(drained)
     record["drained_by"] = {k: list(v) for k, v in drained_by.items()}
     for ch in all_channels:
-        for d in drained_by[ch]:
+        for d in exact[ch]:
             if d[1] != ch:
                 return Fail("C14:%s:misrouted" % name, "subscribe(%r) yielded %r, a message published to %r (schedule %r)" % (ch, d, d[1], sched))
     got = [d for lst in delivered.values() for d in lst] + drained
